@@ -93,6 +93,92 @@ PROPS = {
         "level_note": V0_NOTE,
     },
 
+    "C02": {
+        "families": [{"name": "decl"}],
+        "tags": {"rt": "direct", "bytes": "direct", "dec-model": "direct", "enc-outcome": "direct", "enc-err": "direct",
+                 "invent": "indirect", "reject-more": "indirect", "err-kind": "indirect", "abs-diff": "indirect"},
+        "rule": "65 generated declarations (hand-written base: every shape, attribute combination, Option spelling, transient position, "
+                "nesting/recursion, evolution on structs and variants, sorted / transient constructors, 130-field records; plus pseudo-random "
+                "structs and enums from a fixed seed), each compiled with the real derive macro and interpreted by the model from its "
+                "S-expression; >= 30 values each; bytes, decoded values and error variants compared. distinct = distinct (declaration, value)",
+        "trusted": MODEL_TRUST + ["harness/gen/gen_decls.py prints each declaration twice (Rust source and model S-expression)"],
+        "partial": "round trip of declarations with evolution steps: correspondence only (byte layout of the chunked form is a theorem)",
+        "level_text": "Proof + translation validation: for declarations without evolution steps the derived round trip (at any nesting and "
+                      "recursion, optional / transient fields, sorted / transient constructors) is a corollary of rt_all; the record layouts "
+                      "(headerless and chunked) are theorems; the repository's Point byte vector is proved by evaluation. The macro expansion "
+                      "is validated against the model's interpretation of the same declaration on every run (bytes, values, errors).",
+        "level_note": V0_NOTE,
+        "technique": "Lean 4 proof over a deep embedding of declarations + translation validation of the derive macro",
+    },
+    "C04": {
+        "families": [{"name": "ty"}, {"name": "decl"}, {"name": "altform"}],
+        "tags": {"bytes": "direct", "enc-err": "direct", "enc-outcome": "direct", "altform": "direct", "container-bytes": "direct",
+                 "reject-more": "direct", "invent": "indirect", "dec-model": "indirect", "abs-diff": "indirect"},
+        "rule": "implementation bytes == model bytes for every generated value of every catalogue type and declaration; every alternative form "
+                "(unknown-length sequences via the real serialize_iterator with an inexact size hint, every source container) decoded by the "
+                "implementation and the model. distinct = distinct (type, value)",
+        "trusted": MODEL_TRUST + ["fidelity of the model's format to Scala desert: reading, the derivation.rs byte vector (proved by evaluation), "
+                                  "the golden file (not yet decoded by the model)"],
+        "level_text": "Proof: the production rules of the format are theorems about the model's encoder (fixed width big-endian, tags, counts, "
+                      "length prefixes, tuples, header step codes and position bytes), pinned encodings are proved by evaluation, and the "
+                      "unknown-length form decodes to the value it denotes (rt_seq_unknown). The real writer is compared byte for byte with "
+                      "that encoder on every run; a symmetric change of writer and reader breaks the byte comparison.",
+        "level_note": V0_NOTE,
+    },
+    "C12": {
+        "families": [{"name": "altform"}, {"name": "ty"}],
+        "tags": {"altform": "direct", "container-bytes": "direct", "invent": "indirect", "reject-more": "indirect", "err-kind": "indirect",
+                 "bytes": "indirect", "dec-model": "indirect"},
+        "rule": "element lists over 14 element types written through Vec, slice, LinkedList, HashSet, BTreeSet, arrays, Vec of pairs, HashMap, "
+                "BTreeMap and the unknown-length form; read through every target container; byte containers among themselves; wrong array "
+                "lengths must be rejected. distinct = distinct (element type, element list)",
+        "trusted": MODEL_TRUST,
+        "level_text": "Proof: in the model all sequence containers share one encoder/decoder, so container independence is by construction; "
+                      "array = sequence bytes, the unknown-length form decodes to the same elements (induction over the items), arrays of the "
+                      "wrong length are rejected. That the code has the same property is checked by the altform family over all container pairs.",
+        "level_note": V0_NOTE,
+    },
+    "C13": {
+        "families": [{"name": "decl"}],
+        "tags": {"ext": "direct", "bytes": "direct", "dec-panic": "direct", "err-kind": "direct", "invent": "direct", "reject-more": "direct",
+                 "rt": "direct", "abs-diff": "indirect"},
+        "rule": "every generated enum (unit/tuple/struct/transient variants, sorted or not, names whose byte order and case-insensitive order "
+                "differ): bytes and decoded values against the model, constructor indices 0..7, 9, 127, 128, u32::MAX against every "
+                "declaration, three extension pairs cross-read both ways",
+        "trusted": MODEL_TRUST,
+        "level_text": "Proof: the wire index is the declaration position (unsorted) / a rearrangement of it (sorted; order checked by evaluation "
+                      "and correspondence); an enum value is 0, uv(index), the variant's record; an unknown index is InvalidConstructorId, a "
+                      "transient one DeserializingTransientConstructor / SerializingTransientConstructor; data written before an extension "
+                      "decodes to the same constructor afterwards (enum_extension).",
+        "level_note": V0_NOTE,
+    },
+    "C14": {
+        "families": [{"name": "decl"}, {"name": "hist"}],
+        "tags": {"transient-bytes": "direct", "rt": "direct", "enc-outcome": "direct", "enc-err": "direct", "invent": "direct",
+                 "bytes": "indirect", "dec-model": "indirect"},
+        "rule": "declarations with transient fields in every position (values generated away from the default), transient constructors in "
+                "every position, histories ending in FieldMadeTransient after FieldMadeOptional / FieldAdded; re-generated transient fields "
+                "must not change the bytes; decoded transient fields must equal the declared default",
+        "trusted": MODEL_TRUST,
+        "level_text": "Proof: enc(normalize v) = enc(v) for every environment (also with evolution steps) — transient values never reach the "
+                      "wire; decoding yields normalize v (defaults); transient constructors fail with the dedicated error; the header's "
+                      "removed-name fallback covers made-optional-then-transient (preNames_covers).",
+        "level_note": V0_NOTE,
+    },
+    "C17": {
+        "families": [{"name": "ty"}, {"name": "decl"}, {"name": "chars"}],
+        "tags": {"enc-panic": "direct", "enc-err": "direct", "enc-outcome": "direct", "bytes": "indirect", "rt": "indirect"},
+        "process_failures": True,
+        "rule": "every generated value of every catalogue type and declaration encoded under catch_unwind, error variant compared with the "
+                "model; all 1 112 064 Unicode scalar values through the char codec",
+        "trusted": MODEL_TRUST,
+        "partial": "panic-freedom of the composite encoder on all well-typed values is not a theorem (no typing judgement yet); "
+                   "iterators with an exact size hint above i32::MAX are not exercised",
+        "level_text": "Proof (partial): the error table (characters outside the BMP, lengths beyond 31/32 bits, transient constructors, dangling "
+                      "made-optional references) and top-level no-bytes-on-failure are theorems; every generated value runs under "
+                      "catch_unwind with the error variant compared to the model.",
+        "level_note": V0_NOTE,
+    },
     "C11": {
         "families": [{"name": "varint"}],
         "tags": {
